@@ -953,6 +953,143 @@ let parse_pyint s =
              (false, b0, b1, b2, b3, b4, b5, b6))::r) Z0 false)
       a
 
+(** val int_space_codes : nat list **)
+
+let int_space_codes =
+  (S (S (S (S (S (S (S (S (S O))))))))) :: ((S (S (S (S (S (S (S (S (S (S
+    O)))))))))) :: ((S (S (S (S (S (S (S (S (S (S (S O))))))))))) :: ((S (S
+    (S (S (S (S (S (S (S (S (S (S O)))))))))))) :: ((S (S (S (S (S (S (S (S
+    (S (S (S (S (S O))))))))))))) :: ((S (S (S (S (S (S (S (S (S (S (S (S (S
+    (S (S (S (S (S (S (S (S (S (S (S (S (S (S (S (S (S (S (S
+    O)))))))))))))))))))))))))))))))) :: ((S (S (S (S (S (S (S (S (S (S (S (S
+    (S (S (S (S (S (S (S (S (S (S (S (S (S (S (S (S (S (S (S (S (S (S (S (S
+    (S (S (S (S (S (S (S (S (S (S (S (S (S (S (S (S (S (S (S (S (S (S (S (S
+    (S (S (S (S (S (S (S (S (S (S (S (S (S (S (S (S (S (S (S (S (S (S (S (S
+    (S (S (S (S (S (S (S (S (S (S (S (S (S (S (S (S (S (S (S (S (S (S (S (S
+    (S (S (S (S (S (S (S (S (S (S (S (S (S (S (S (S (S (S (S (S (S (S (S (S
+    (S
+    O))))))))))))))))))))))))))))))))))))))))))))))))))))))))))))))))))))))))))))))))))))))))))))))))))))))))))))))))))))))))))))))))))))) :: ((S
+    (S (S (S (S (S (S (S (S (S (S (S (S (S (S (S (S (S (S (S (S (S (S (S (S
+    (S (S (S (S (S (S (S (S (S (S (S (S (S (S (S (S (S (S (S (S (S (S (S (S
+    (S (S (S (S (S (S (S (S (S (S (S (S (S (S (S (S (S (S (S (S (S (S (S (S
+    (S (S (S (S (S (S (S (S (S (S (S (S (S (S (S (S (S (S (S (S (S (S (S (S
+    (S (S (S (S (S (S (S (S (S (S (S (S (S (S (S (S (S (S (S (S (S (S (S (S
+    (S (S (S (S (S (S (S (S (S (S (S (S (S (S (S (S (S (S (S (S (S (S (S (S
+    (S (S (S (S (S (S (S (S (S (S (S (S (S (S (S
+    O)))))))))))))))))))))))))))))))))))))))))))))))))))))))))))))))))))))))))))))))))))))))))))))))))))))))))))))))))))))))))))))))))))))))))))))))))))))))))))))))) :: [])))))))
+
+(** val is_int_space : char -> bool **)
+
+let is_int_space =
+  code_in int_space_codes
+
+(** val parse_int_raw : char list -> z option **)
+
+let parse_int_raw s =
+  match strip is_int_space s with
+  | [] -> digits_acc [] Z0 false
+  | a::r ->
+    (* If this appears, you're using Ascii internals. Please don't *)
+ (fun f c ->
+  let n = Char.code c in
+  let h i = (n land (1 lsl i)) <> 0 in
+  f (h 0) (h 1) (h 2) (h 3) (h 4) (h 5) (h 6) (h 7))
+      (fun b b0 b1 b2 b3 b4 b5 b6 ->
+      if b
+      then if b0
+           then if b1
+                then digits_acc
+                       (((* If this appears, you're using Ascii internals. Please don't *)
+ (fun (b0,b1,b2,b3,b4,b5,b6,b7) ->
+  let f b i = if b then 1 lsl i else 0 in
+  Char.chr (f b0 0 + f b1 1 + f b2 2 + f b3 3 + f b4 4 + f b5 5 + f b6 6 + f b7 7))
+                       (true, true, true, b2, b3, b4, b5, b6))::r) Z0 false
+                else if b2
+                     then if b3
+                          then digits_acc
+                                 (((* If this appears, you're using Ascii internals. Please don't *)
+ (fun (b0,b1,b2,b3,b4,b5,b6,b7) ->
+  let f b i = if b then 1 lsl i else 0 in
+  Char.chr (f b0 0 + f b1 1 + f b2 2 + f b3 3 + f b4 4 + f b5 5 + f b6 6 + f b7 7))
+                                 (true, true, false, true, true, b4, b5,
+                                 b6))::r) Z0 false
+                          else if b4
+                               then if b5
+                                    then digits_acc
+                                           (((* If this appears, you're using Ascii internals. Please don't *)
+ (fun (b0,b1,b2,b3,b4,b5,b6,b7) ->
+  let f b i = if b then 1 lsl i else 0 in
+  Char.chr (f b0 0 + f b1 1 + f b2 2 + f b3 3 + f b4 4 + f b5 5 + f b6 6 + f b7 7))
+                                           (true, true, false, true, false,
+                                           true, true, b6))::r) Z0 false
+                                    else if b6
+                                         then digits_acc ('\171'::r) Z0 false
+                                         else digits_acc r Z0 false
+                               else digits_acc
+                                      (((* If this appears, you're using Ascii internals. Please don't *)
+ (fun (b0,b1,b2,b3,b4,b5,b6,b7) ->
+  let f b i = if b then 1 lsl i else 0 in
+  Char.chr (f b0 0 + f b1 1 + f b2 2 + f b3 3 + f b4 4 + f b5 5 + f b6 6 + f b7 7))
+                                      (true, true, false, true, false, false,
+                                      b5, b6))::r) Z0 false
+                     else digits_acc
+                            (((* If this appears, you're using Ascii internals. Please don't *)
+ (fun (b0,b1,b2,b3,b4,b5,b6,b7) ->
+  let f b i = if b then 1 lsl i else 0 in
+  Char.chr (f b0 0 + f b1 1 + f b2 2 + f b3 3 + f b4 4 + f b5 5 + f b6 6 + f b7 7))
+                            (true, true, false, false, b3, b4, b5, b6))::r)
+                            Z0 false
+           else if b1
+                then if b2
+                     then if b3
+                          then digits_acc
+                                 (((* If this appears, you're using Ascii internals. Please don't *)
+ (fun (b0,b1,b2,b3,b4,b5,b6,b7) ->
+  let f b i = if b then 1 lsl i else 0 in
+  Char.chr (f b0 0 + f b1 1 + f b2 2 + f b3 3 + f b4 4 + f b5 5 + f b6 6 + f b7 7))
+                                 (true, false, true, true, true, b4, b5,
+                                 b6))::r) Z0 false
+                          else if b4
+                               then if b5
+                                    then digits_acc
+                                           (((* If this appears, you're using Ascii internals. Please don't *)
+ (fun (b0,b1,b2,b3,b4,b5,b6,b7) ->
+  let f b i = if b then 1 lsl i else 0 in
+  Char.chr (f b0 0 + f b1 1 + f b2 2 + f b3 3 + f b4 4 + f b5 5 + f b6 6 + f b7 7))
+                                           (true, false, true, true, false,
+                                           true, true, b6))::r) Z0 false
+                                    else if b6
+                                         then digits_acc ('\173'::r) Z0 false
+                                         else option_map Z.opp
+                                                (digits_acc r Z0 false)
+                               else digits_acc
+                                      (((* If this appears, you're using Ascii internals. Please don't *)
+ (fun (b0,b1,b2,b3,b4,b5,b6,b7) ->
+  let f b i = if b then 1 lsl i else 0 in
+  Char.chr (f b0 0 + f b1 1 + f b2 2 + f b3 3 + f b4 4 + f b5 5 + f b6 6 + f b7 7))
+                                      (true, false, true, true, false, false,
+                                      b5, b6))::r) Z0 false
+                     else digits_acc
+                            (((* If this appears, you're using Ascii internals. Please don't *)
+ (fun (b0,b1,b2,b3,b4,b5,b6,b7) ->
+  let f b i = if b then 1 lsl i else 0 in
+  Char.chr (f b0 0 + f b1 1 + f b2 2 + f b3 3 + f b4 4 + f b5 5 + f b6 6 + f b7 7))
+                            (true, false, true, false, b3, b4, b5, b6))::r)
+                            Z0 false
+                else digits_acc
+                       (((* If this appears, you're using Ascii internals. Please don't *)
+ (fun (b0,b1,b2,b3,b4,b5,b6,b7) ->
+  let f b i = if b then 1 lsl i else 0 in
+  Char.chr (f b0 0 + f b1 1 + f b2 2 + f b3 3 + f b4 4 + f b5 5 + f b6 6 + f b7 7))
+                       (true, false, false, b2, b3, b4, b5, b6))::r) Z0 false
+      else digits_acc
+             (((* If this appears, you're using Ascii internals. Please don't *)
+ (fun (b0,b1,b2,b3,b4,b5,b6,b7) ->
+  let f b i = if b then 1 lsl i else 0 in
+  Char.chr (f b0 0 + f b1 1 + f b2 2 + f b3 3 + f b4 4 + f b5 5 + f b6 6 + f b7 7))
+             (false, b0, b1, b2, b3, b4, b5, b6))::r) Z0 false)
+      a
+
 (** val z_to_string : z -> char list **)
 
 let z_to_string z0 =
@@ -1077,7 +1214,7 @@ let resolve_index has locate lbl =
   else let period = strip (fun c -> (=) c ch_tick) (strip is_py_space lbl) in
        if has (LStr period)
        then locate (LStr period)
-       else (match parse_pyint period with
+       else (match parse_int_raw period with
              | Some z0 ->
                if has (LInt z0) then locate (LInt z0) else Raise KeyError
              | None -> Raise KeyError)
